@@ -1077,11 +1077,28 @@ class Normaliser:
                         return bool(e.elts) and depth < 3 and all(is_table(x, depth + 1) for x in e.elts)
                     if isinstance(e, ast.Constant):
                         return True
+                    if isinstance(e, ast.Name) and e.id in classfuncs:
+                        return True         # a function of this class body (written Cls.f when the table is propagated)
                     return isinstance(e, ast.Name) and e.id in modnames and e.id not in classnames
+                # plain functions of the class body that nothing rebinds: inside the class body their bare name is the function object
+                classfuncs = {m.name for m in node.body if isinstance(m, ast.FunctionDef) and not m.decorator_list
+                              and sum(1 for m2 in node.body if isinstance(m2, ast.FunctionDef) and m2.name == m.name) == 1
+                              and (bm is None or f'{node.name}.{m.name}' not in self.base.get(path, {}).get('funcs', {}))}
+                classfuncs -= {n.id for st in node.body for t in (st.targets if isinstance(st, ast.Assign) else []) for n in ast.walk(t) if isinstance(n, ast.Name)}
                 for st in node.body:
                     if isinstance(st, ast.Assign) and len(st.targets) == 1 and isinstance(st.targets[0], ast.Name) \
                             and st.targets[0].id not in known and (is_const_expr(st.value) or (isinstance(st.value, (ast.Tuple, ast.List)) and is_table(st.value))):
-                        cands.setdefault(st.targets[0].id, []).append((path, node.name, st.value))
+                        val = st.value
+                        if any(isinstance(n, ast.Name) and n.id in classfuncs for n in ast.walk(val)):
+                            cname = node.name
+
+                            class Q(ast.NodeTransformer):
+                                def visit_Name(self, n):
+                                    if n.id in classfuncs:
+                                        return ast.copy_location(ast.Attribute(value=ast.Name(id=cname, ctx=ast.Load()), attr=n.id, ctx=ast.Load()), n)
+                                    return n
+                            val = Q().visit(copy.deepcopy(val))
+                        cands.setdefault(st.targets[0].id, []).append((path, node.name, val))
         cands = {k: v[0] for k, v in cands.items() if len(v) == 1}
         if not cands:
             return
@@ -1267,7 +1284,13 @@ class Normaliser:
                     return h, f.value
                 return None
             if isinstance(f.value, ast.Name) and f.value.id == h.cls:
-                return None         # Class.method(obj, ...) form: leave
+                # Class.method(obj, ...) with a uniquely named new method: the same as obj.method(...)
+                if h.kind == 'method' and call.args and isinstance(call.args[0], ast.Name) and not isinstance(call.args[0], ast.Starred):
+                    call.func = ast.copy_location(ast.Attribute(value=call.args[0], attr=f.attr, ctx=ast.Load()), f)
+                    call.args = call.args[1:]
+                    self._prepare(h)
+                    return h, call.func.value
+                return None
             self._prepare(h)
             return h, f.value
         return None
